@@ -77,8 +77,8 @@ UNPROVED = (
     "union of the hypotheses. NOT proved, explored by the oracle on every run: (b),(c2) on URLs with capital letters "
     "(that normalize_url's steps other than the index test commute with lower-casing), "
     "platform_aware=True (D53: KF-C03-2), URLs with a redirect hint (D29: KF-C03-1), the "
-    "string-level bridging (cleaning + CPython parse/print: evaluated per case by c03_bridge / c03_lower; it fails for an "
-    "unknown scheme with an empty authority, KF-C03-5), equality of "
+    "string-level bridging (cleaning + CPython parse/print: evaluated per case by c03_bridge / c03_lower; an "
+    "unknown scheme with an empty authority, where it used to fail - KF-C03-5 - is fixed: FX-C02-EMPTYAUTH), equality of "
     "the printed strings vs equality of the components."
 )
 
